@@ -85,6 +85,25 @@ def templates(rng):
           (3, 0, 1, 0, [['start=1', 'semwait', 'join=1'], ['start=2', 'semsignal', 'join=2'], ['semwait']], res()),
           (2, 0, 0, 0, [['join=1', 'start=1', 'sigwait', 'join=1'], ['sigset']], res()),
           (4, 0, 0, 0, [['start=1', 'start=2', 'start=3', 'join=1', 'join=2', 'join=3'], ['monlock', 'monwait', 'monunlock'], ['monset'], ['monset']], res())]
+    # round 6: Thread::start whose pthread_create fails (`startf`): the object stays unstarted, the retry succeeds, join returns the
+    # result; a join / a second failing start / a start of an object that already has a thread in between
+    T += [(2, 0, 0, 0, [['startf=1', 'start=1', 'join=1'], ['csenter']], res()),
+          (2, 0, 0, 0, [['startf=1', 'join=1', 'start=1', 'join=1'], []], res()),
+          (3, 0, 0, 0, [['startf=2', 'startf=1', 'start=1', 'startf=1', 'start=2', 'join=2', 'join=1'], ['sigset'], ['sigwait']], res()),
+          (3, 0, 0, 0, [['start=1', 'startf=1', 'join=1', 'startf=2', 'join=2'], [], ['csenter']], res()),
+          (2, 0, 0, 1, [['startf=1', 'join=1', 'start=1', 'join=1'], ['sigset']], res())]
+    # round 6: objects with STATIC STORAGE DURATION (constructed before main and before the library's own static initialisers;
+    # 7th field): re-entrancy, tryLock of the owner, exclusion; one handshake per other class
+    LLL = ['lock', 'lock', 'trylock', 'csenter', 'csleave', 'unlock', 'unlock', 'unlock']
+    T += [(2, 0, 0, 1, [LL, L], {}, 1), (2, 0, 0, 1, [LLL, ['trylock', 'unlock']], {}, 1),
+          (3, 0, 0, 1, [LL, ['trylock', 'unlock'], L], {}, 1),
+          (2, 0, 0, 1, [['lock', 'trylock', 'unlock', 'unlock'], ['trylock', 'trylock', 'unlock']], {}, 1),
+          (2, 0, 0, 1, [['trylock', 'trylock', 'lock', 'unlock', 'unlock', 'unlock'], L], {}, 1),
+          (3, 0, 0, 1, [['sigwait', 'sigwait'], ['sigset', 'sigreset', 'sigset'], ['sigwaitt=%d' % ms()]], {}, 1),
+          (2, 1, 0, 1, [['sigwait', 'sigreset', 'sigwait'], ['sigset']], {}, 1),
+          (3, 0, 0, 1, [W, Wt(), ['monset']], {}, 1), (3, 0, 0, 1, [CS, CS, ['montry', 'monunlock']], {}, 1),
+          (3, 0, 2, 1, [['semwait'], ['semwaitt=%d' % ms()], ['semtry', 'semsignal', 'semwait']], {}, 1),
+          (2, 0, 0, 1, [['semwait'], ['semsignal']], {}, 1)]
     return T
 
 
@@ -124,16 +143,20 @@ def random_scenario(rng):
     results = {}
     if rng.random() < 0.25 and n >= 2:
         auto = 0
-        scripts[0] = ['start=%d' % c for c in range(1, n)] + scripts[0] + ['join=%d' % c for c in range(1, n) if rng.random() < 0.8]
+        # round 6: a third of the starts is preceded by a start whose pthread_create fails (sometimes with a join in between)
+        pre = lambda c: (['startf=%d' % c] + (['join=%d' % c] if rng.random() < 0.3 else [])) if rng.random() < 0.33 else []
+        scripts[0] = [o for c in range(1, n) for o in pre(c) + ['start=%d' % c]] + scripts[0] + ['join=%d' % c for c in range(1, n) if rng.random() < 0.8]
         results = {c: rng.choice(RES) for c in range(1, n) if rng.random() < 0.8}
     sem0 = rng.choice(SEM_BIG) if rng.random() < 0.15 else rng.choice([0, 0, 1, 2])
-    return (n, rng.choice([0, 0, 1]), sem0, auto, scripts, results)
+    # round 6: a fifth of the scenarios runs on the objects with static storage duration
+    return (n, rng.choice([0, 0, 1]), sem0, auto, scripts, results, 1 if rng.random() < 0.2 else 0)
 
 
 def case_head(tpl, base):
     n, sig0, sem0, auto, scripts = tpl[:5]
     results = tpl[5] if len(tpl) > 5 else {}
-    lines = ['@%d %d %d %d' % (n, sig0, sem0, auto)]
+    static = tpl[6] if len(tpl) > 6 else 0
+    lines = ['@%d %d %d %d' % (n, sig0, sem0, auto) + (' 1' if static else '')]
     for t, sc in enumerate(scripts):
         lines.append(('t %d ' % t + ' '.join(sc)).rstrip())
     for t in sorted(results):
@@ -337,6 +360,10 @@ class C11(Check):
             ((3, 0, 0, 0, [['start=2', 'start=1', 'join=1', 'join=2'], [], []], {1: 65536, 2: 2147483648}), None, (40, 0, 0)),
             ((2, 0, 256, 1, [['semwait', 'semwait'], ['semsignal']]), None, (40, 1, 0)),
             ((2, 0, 65536, 1, [['semwaitt=999', 'semtry'], ['semtry']]), BASES[1], (40, 0, 1)),
+            # round 6: the Mutex with static storage duration (re-entrant lock and tryLock of the owner against a second thread);
+            # a failing pthread_create, the retry on the same Thread object, join
+            ((2, 0, 0, 1, [['lock', 'lock', 'trylock', 'unlock', 'unlock', 'unlock'], ['trylock', 'lock', 'unlock']], {}, 1), None, (40, 0, 0)),
+            ((2, 0, 0, 0, [['startf=1', 'start=1', 'join=1'], ['sigset']], {1: 65537}), None, (40, 0, 0)),
         ]
         if thorough:
             scopes += [
@@ -443,6 +470,9 @@ class C11(Check):
                 verdict[int(p[0])] = p[1]
         for i, (c, obs) in enumerate(zip(cases, impl_obs)):
             v = verdict.get(i, 'ok')
+            if any(l.startswith('! stale-join') for l in obs):
+                fails.append((i, 0, self.state_oracle(c, obs)))
+                continue
             if v != 'ok':
                 fails.append((i, 0, 'history of library calls violates the contract: ' + v))
                 continue
@@ -558,6 +588,9 @@ class C11(Check):
         cfg = case[0][1:].split() if case and case[0].startswith('@') else []
         count = int(cfg[2]) if len(cfg) > 2 and re.match(r'\d+$', cfg[2]) else 0     # initial value + signals - successful waits
         for l in obs:
+            if l.startswith('! stale-join'):
+                return ('Thread::join ran pthread_join on a handle no successful pthread_create returned - a failed start() left it in the '
+                        'object - and returned a value although no thread function of that object had finished: ' + l)
             if l.startswith('! uninit'):
                 return 'a primitive of a library object is used without having been initialised: ' + l
             if l.startswith('!'):
